@@ -13,7 +13,7 @@ import (
 )
 
 func init() {
-	models = map[string]intrinsic{
+	mm := map[string]intrinsic{
 		"fmt.Errorf": func(x *Exec, fr *frame, fn *ssa.Function, a []Value) Value {
 			f, _ := a[0].(Str).Concrete()
 			return x.newError("fmt.Errorf: " + f)
@@ -49,6 +49,9 @@ func init() {
 			}
 			return x.formatInt(a[0].(*Term), true)
 		},
+	}
+	for k, v := range mm {
+		models[k] = v
 	}
 }
 
@@ -198,7 +201,13 @@ func (x *Exec) formatFloat(f *Term) Str {
 	if f.IsConst() {
 		return x.ts.StrOf(strconv.FormatFloat(math.Float64frombits(f.C), 'g', -1, 64))
 	}
-	s := x.symString(1, 3, "0123456789.e+-", "fmtfloat")
+	for _, ft := range x.floatTexts {
+		if ft.F == f {
+			return ft.S
+		}
+	}
+	// the text is a non-empty string of number characters, functionally determined by f
+	s := x.symString(1, 2, "0123456789.e+-", "fmtfloat")
 	x.floatTexts = append(x.floatTexts, floatText{f, s})
 	return s
 }
